@@ -73,9 +73,33 @@ static void run_cycle(const C08CPlan *p)
   c08c_step_end(100, -1);
 }
 
+// an ownership chain thousands of objects long, released at its head
+struct LongNode : public Item
+{
+  IntrusivePtr<Item> next;
+  explicit LongNode(int i) : Item(i) {}
+  ~LongNode() override { c08c_long_destroyed(id); }
+};
+static void run_long(const C08CPlan *p)
+{
+  SimTag tag(SIM_TAG_SUT);
+  c08c_long_begin(p->long_n);
+  IntrusivePtr<Item> head;
+  for (int i = p->long_n - 1; i >= 0; i--) {  // built from the tail: node i holds node i+1
+    LongNode *nd = new LongNode(i);
+    nd->next = head;
+    head = nd;
+    nd->refDec();  // the creator's reference
+  }
+  head = nullptr;  // the one operation that releases the last reference of every node
+  c08c_long_released();
+}
+
 extern "C" void c08c_run()
 {
   const C08CPlan *p = c08c_plan();
+  if (p->long_n > 0)
+    return run_long(p);
   if (p->cycle)
     return run_cycle(p);
   SimTag tag(SIM_TAG_SUT);
